@@ -25,6 +25,9 @@ PIECES = ["http://", "https://", "file://", "://", "~X~", "~E", "~H", "~h", "~f"
           "1.5", "-1", "é", "€", "\U0001F600", "\u0000", "\n", "\t", "\u007f", "\u0080", "\u00a0", "\u200b", "\ufeff", "\ufffd", "\U0010ffff",
           "?", "#", "&", "=", "\\", "\"", "'", "<", ">", "[", "]", "{", "}", "|", "^", "`", "@", "!", "$", "(", ")", "*", ",", ";", "é", "query"]
 
+LOOKALIKES = ["~X~a~E", "~X~abc~E", "~X~value-1~E", "~X~/a/b~E", "~X~a/b-c~E", "~X~~E", "~X~~X~a~E~E", "x~X~a~E", "~X~a~Ex", "~E~X~", "~X~-R/a~E",
+              "~X~a", "a~E", "-R", "-R-meta", "--x", "-", "ns-x", "~H", "~Ha", "~X~a~E-~X~b~E", "%7EX%7Ea%7EE", "~x~a~e"]
+
 K_RECURSION = ("decode_token recurses once per '~' entity: a token with about 1000 or more escaped characters (e.g. ' ' * 1000) makes "
                "decode_token(encode_token(s)) / decode(encode([[s]])) raise RecursionError")
 K_RESHEADER_EMPTY = ("resource segment header parameters are separated by Word('-'): an empty-string parameter followed by another one "
@@ -457,6 +460,8 @@ def bounded(tier, seed):
         placed += twos[:ntwo]
     nlong = 160 if quick else 800
     placed += longs[:nlong]
+    # whole-argument look-alikes of the text of a link / entity / header (an argument that *is* such a text must stay a string)
+    placed += LOOKALIKES
     forms = QUICK_FORMS if quick else list(FORMS)
     done = 0
     before = stats["placements"]
